@@ -44,6 +44,7 @@ type job struct {
 	Seed    int64    `json:"seed"`
 	Files   []string `json:"files,omitempty"`
 	BoundMS int      `json:"bound_ms"`
+	RetryMS int      `json:"retry_ms,omitempty"` // bound of the solitary re-run (default 10x)
 	Journal string   `json:"journal"`
 	Out     string   `json:"out"`
 	Par     int      `json:"par"`      // >1: concurrent replay (race pass)
